@@ -16,6 +16,7 @@ import (
 	"time"
 
 	"github.com/thushan/olla/internal/adapter/health"
+	"github.com/thushan/olla/internal/adapter/proxy/olla"
 	"github.com/thushan/olla/internal/app"
 	"github.com/thushan/olla/internal/app/services"
 	"github.com/thushan/olla/internal/config"
@@ -343,6 +344,23 @@ func (w *World) ProxyService() ports.ProxyService {
 		panic(err)
 	}
 	return s
+}
+
+// CloseEngineBreakers closes the olla engine's per-endpoint breakers through their own
+// production API (RecordSuccess), so that a check about something else is not disturbed by
+// failures it injected earlier.  No-op on the sherpa engine.
+func (w *World) CloseEngineBreakers(names ...string) {
+	type cbGetter interface {
+		RecordSuccess()
+	}
+	svc, ok := w.ProxyService().(*olla.Service)
+	if !ok {
+		return
+	}
+	for _, n := range names {
+		var cb cbGetter = svc.GetCircuitBreaker(n)
+		cb.RecordSuccess()
+	}
 }
 
 // ForceHealth runs a synchronous forced health round (what /internal and startup use).
